@@ -1127,20 +1127,28 @@ def execute_and_judge_l2(binary, scripts, k0, name, nproc=None):
         doc = vlib.tlc_trace(fout, "%s-%d" % (name, i), spec="Trace_L2", modules=("MonL2.tla", "Flags.tla")) if lines else {"viol": []}
         idx = {(ln["tr"], ln["i"]): ln for ln in lines}
         return ([{"tr": v["tr"], "i": v["i"], "tags": sorted(v["tags"]), "line": idx.get((v["tr"], v["i"]))} for v in doc["viol"]],
-                len(lines), len({ln["tr"] for ln in lines}), crashed)
-    viols, nlines, ntraces, crashes = [], 0, 0, []
+                len(lines), len({ln["tr"] for ln in lines}), crashed, doc.get("div", []), doc.get("compared", 0))
+    viols, nlines, ntraces, crashes, divs, ncmp = [], 0, 0, [], [], 0
     with cf.ThreadPoolExecutor(nproc) as ex:
-        for v, nl, nt, cr in ex.map(work, range(nproc)):
+        for v, nl, nt, cr, dv, nc in ex.map(work, range(nproc)):
             viols += v
             nlines += nl
             ntraces += nt
+            divs += dv
+            ncmp += nc
             if cr:
                 crashes.append(cr)
+    # lock-step with the full-stack ideal model: informational, never a verdict
+    bad = {v["tr"] for v in viols}
+    divs = [d for d in divs if d["tr"] not in bad]
+    for d in divs[:5]:
+        log("SPEC-DIVERGENCE (UpfL2 vs. the real stack) trace %s line %d (%s): %s\n    model: %s\n    code:  %s" % (
+            d["tr"], d["i"], d["t"], d["what"], json.dumps(d.get("model"))[:700], json.dumps(d.get("code"))[:700]))
     for v in viols:
         v["script"] = byid.get(v["tr"])
         if v["line"]:
             v["line"] = {k: (x if k not in ("pkts", "gpdu") else x[:8]) for k, x in v["line"].items()}
-    return viols, {"events": nlines, "traces": ntraces, "crashes": crashes}
+    return viols, {"events": nlines, "traces": ntraces, "crashes": crashes, "lockstep_compared": ncmp, "lockstep_divergences": len(divs)}
 
 
 L2_PLAN = {"C13": ("Buffer", 4, 5, "buffering"), "C15": ("Perio", 5, 6, "periodic")}
@@ -1166,7 +1174,8 @@ def l2_part(pid, family, turns, gen, n_edges, n_rand, kofs=0):
     log("executing %d model paths and %d random histories on the real stack (PFCP server + gtp5g driver + periodic server + buffering listener on the simulated kernel)" % (len(scripts), len(rnd)))
     v1, s1 = execute_and_judge_l2(binary, scripts, kbase(pid) + kofs, pid + "-mc")
     v2, s2 = execute_and_judge_l2(binary, rnd, kbase(pid) + kofs, pid + "-rnd")
-    return mc, scripts, rnd, v1 + v2, {"events": s1["events"] + s2["events"], "traces": s1["traces"] + s2["traces"], "crashes": s1["crashes"] + s2["crashes"]}
+    return mc, scripts, rnd, v1 + v2, {"events": s1["events"] + s2["events"], "traces": s1["traces"] + s2["traces"], "crashes": s1["crashes"] + s2["crashes"],
+                                       "lockstep_compared": s1["lockstep_compared"], "lockstep_divergences": s1["lockstep_divergences"]}
 
 
 def check_l2(pid, replay=None):
@@ -1196,6 +1205,7 @@ def check_l2(pid, replay=None):
            "samples": [brief(scripts[0]), brief(rnd[0])[:10]], "mc_family": family, "mc_constants": mc["cfg"],
            "edges_total": mc["edges_printed"], "edges_replayed": len(scripts), "random_histories": len(rnd),
            "events_executed_on_impl": st["events"], "packet_scale": PKT_SCALE, "exhaustive": False,
+           "lockstep_steps_compared_with_ideal_model": st["lockstep_compared"], "lockstep_divergences": st["lockstep_divergences"],
            "checker_cmd": "tlc MC_L2.tla (INVARIANT NoVerdict, ACTION_CONSTRAINT Emit); tlc Trace_L2.tla (QCap = 512)",
            "verdicts_of_other_properties": others}
     vlib.write_evidence(pid, "model_checking", cov, time.time() - t0, nviol, [
